@@ -1,2 +1,3 @@
 import Driver.Common
 import Driver.Slots
+import Driver.Cli
